@@ -175,3 +175,71 @@ func structOf(t types.Type) *types.Struct {
 	st, _ := t.Underlying().(*types.Struct)
 	return st
 }
+
+// isReadFull: io.ReadFull(r, buf), or io.ReadAtLeast(r, buf, min) with min
+// equal to len(buf) (which is what ReadFull is).
+func (p *Prog) isReadFull(call ssa.CallInstruction) bool {
+	if call == nil {
+		return false
+	}
+	cm := call.Common()
+	switch p.CalleeID(cm) {
+	case "io.ReadFull":
+		return true
+	case "io.ReadAtLeast":
+		if len(cm.Args) != 3 {
+			return false
+		}
+		buf, min := unspill(cm.Args[1]), unspill(cm.Args[2])
+		// len(buf) as a constant or as the same value
+		if k, ok := intConst(min); ok {
+			if sl, ok := buf.(*ssa.Slice); ok {
+				lo := int64(0)
+				okLo := sl.Low == nil
+				if sl.Low != nil {
+					lo, okLo = intConst(sl.Low)
+				}
+				if sl.High != nil {
+					if h, ok := intConst(sl.High); ok && okLo && h-lo == k {
+						return true
+					}
+				} else if n, ok := constLen(sl.X.Type()); ok && okLo && n-lo == k {
+					return true
+				}
+			}
+			return false
+		}
+		if lc, _ := callOf(min); lc != nil && p.CalleeID(lc.Common()) == "builtin:len" && unspill(lc.Common().Args[0]) == buf {
+			return true
+		}
+		if ms, ok := buf.(*ssa.MakeSlice); ok && unspill(ms.Len) == min {
+			return true
+		}
+		if sl, ok := buf.(*ssa.Slice); ok && sl.Low == nil && sl.High != nil && unspill(sl.High) == min {
+			return true
+		}
+		b := p.NewBounds()
+		if c, ok := call.(*ssa.Call); ok {
+			okp, _ := b.Prove(c.Parent(), c, func(s *scope, pr *proof) []Cons {
+				l, ok := s.lenLin(cm.Args[1], pr)
+				if !ok {
+					return []Cons{{linConst(1)}}
+				}
+				return eq(l, s.lin(cm.Args[2], pr))
+			})
+			return okp
+		}
+	}
+	return false
+}
+
+// ReadFullsIn lists the exact-length reads of fn.
+func (p *Prog) ReadFullsIn(fn *ssa.Function) []ssa.CallInstruction {
+	var out []ssa.CallInstruction
+	for _, c := range p.CallsIn(fn, "io.ReadFull", "io.ReadAtLeast") {
+		if p.isReadFull(c) {
+			out = append(out, c)
+		}
+	}
+	return out
+}
